@@ -1,18 +1,23 @@
 #!/bin/bash
-# seed_matrix.sh [tier] [name-filter]: runs each seeded change against the check of the property it breaks.
-# Results: seeded/RESULTS.txt (one line per seeded change). /repo is restored after each run.
+# seed_matrix.sh [tier] [name-filter]: runs each seeded change against the check of the property it breaks,
+# from a snapshot of the committed /verif (so that editing /verif meanwhile does not disturb it).
+# /repo is restored after each run.
 TIER=${1:-quick}; FILTER=${2:-.}
-cd /verif
-for d in seeded/*/; do
+SNAP=/tmp/vsnap_$$
+git -C /verif worktree add -q --detach $SNAP HEAD || exit 2
+trap 'git -C /repo checkout -- . ; git -C /verif worktree remove --force $SNAP' EXIT
+(cd $SNAP && ./vcheck build) || exit 2
+for d in /verif/seeded/*/; do
   n=$(basename $d); [[ $n =~ $FILTER ]] || continue
   prop=${n%%_*}
-  grep -q "\"$prop\"" checks.json || { echo "$n: no check registered for $prop"; continue; }
-  git -C /repo apply /verif/$d/patch.diff || { echo "$n: PATCH DOES NOT APPLY"; continue; }
+  grep -q "\"$prop\"" $SNAP/checks.json || { echo "$n: no check registered for $prop"; continue; }
+  git -C /repo apply $d/patch.diff || { echo "$n: PATCH DOES NOT APPLY"; continue; }
   t0=$(date +%s)
-  out=$(timeout 3000 ./vcheck $prop $TIER 2>&1); rc=$?
+  out=$(cd $SNAP && timeout 3000 ./vcheck $prop $TIER 2>&1); rc=$?
   git -C /repo checkout -- .
   t1=$(date +%s)
   v=$(echo "$out" | grep -A1 "^VIOLATION" | head -2 | tr '\n' ' ' | cut -c1-230)
   inc=$(echo "$out" | grep -c "^INCONCLUSIVE")
-  echo "$n: tier=$TIER exit=$rc time=$((t1-t0))s inconclusive=$inc $v"
+  unc=$(echo "$out" | grep "^UNCONFIRMED" | head -1 | cut -c1-200)
+  echo "$n: tier=$TIER exit=$rc time=$((t1-t0))s inconclusive=$inc $v $unc"
 done
